@@ -167,6 +167,12 @@ class Spec(PropSpec):
         # with positional writes / reads / fsyncs rerouted through the ring, crash at every prefix
         # several hosts crashed by one Sim::crash call over a regex host set / by repeated single calls
         cases += [F.multi_host_crash(rng) for _ in range(40 * k)]
+        # one host whose software writes from a destructor (flusher joined on drop) during Sim::crash: unsynced, rolled back
+        for _ in range(30 * k):
+            c = F.gen_safe(rng, stale=0.0, crash=0.15, setup_sync=rng.choice([1, 2, 2]), syncs=0.3)
+            c["cfg"].update({"via": "sim", "drop_ops": [["spit", p, [200, 201, 202]] for p in rng.sample(F.FILES, 2)]})
+            c["flavour"] += "+Sim::crash+destructor-writes"
+            cases.append(c)
         us = F.uring_fsync_scenarios(rng)
         cases += us
         for b in rng.sample(us, 6 * k):
